@@ -12,10 +12,20 @@
 
    Discrete time.  Per hook a bucket `credit` in units of 1/I token (one tick = one unit, capacity B*I, a start
    costs I units; the bucket starts full as rate.NewLimiter does).  One worker per queue: Pick (handler entered),
-   Acquire (RateLimitWait returns = the execution starts), Finish (success removes the head, failure keeps it for
-   a retry).  A hook may have bindings in several queues (its runs then wait on the same bucket concurrently), and
-   several hooks may share a queue (a waiting head blocks the others, as documented).  Arrivals are arbitrary.
-   Time cannot pass while a waiting worker could acquire (RateLimitWait returns as soon as a token exists).
+   Acquire (RateLimitWait returns = the execution starts; its outcome is drawn in the same step: success removes
+   the head, failure keeps it for a retry - for the limiter a running hook process and an idle worker are the
+   same: time passes, tasks arrive).  A hook may have bindings in several queues (its runs then wait on the same
+   bucket concurrently) and several hooks may share a queue (a waiting head blocks the others, as documented).
+   Arrivals are arbitrary.  Time cannot pass while a waiting worker could acquire (RateLimitWait returns as soon
+   as a token exists).
+
+   The property "every window of length T holds at most B + ceil(T/I) starts" is evaluated in two ways:
+     - WindowBound: literally, over the history `starts` (KeepHistory = TRUE, bounded horizon);
+     - WindowBoundMon: by a monitor `mon` - a bucket of capacity B*I + I - 1 units that starts full - which rejects
+       a start sequence exactly when some window violates the bound ((j-i+1) <= B + ceil(T/I) is the same as
+       (j-i+1)*I <= B*I + I - 1 + T for integers).  MonitorExact states the equivalence and is checked by TLC on
+       arbitrary start sequences (Wiring = "nowait").  The monitor needs no history and no clock, so with
+       KeepHistory = FALSE the clock is dropped and TLC covers behaviours and windows of ANY length.
 
    `Wiring` # "ok" are seeded wiring errors, used only to show that the properties are not vacuous. *)
 EXTENDS RateOps, Integers, Sequences, FiniteSets, TLC
@@ -25,34 +35,42 @@ CONSTANTS
   Queues,       \* queue names
   Configs,      \* set of [I : [Hooks -> Nat], B : [Hooks -> Nat], QS : [Hooks -> SUBSET Queues]]; I[h] = 0: no settings
   Sources,      \* where a task comes from ("kube", "sched"); observation only
-  Observed,     \* the hooks whose start times are kept as history (the property is evaluated for them)
-  Horizon,      \* ticks
+  KeepHistory,  \* TRUE: clock 0..Horizon and start times kept; FALSE: no clock, unbounded time
+  HistFor,      \* the hooks whose start times are kept (KeepHistory = TRUE)
+  Horizon,      \* ticks (KeepHistory = TRUE)
   MaxLen,       \* bound on the length of a queue (= largest burst)
   MaxPerTick,   \* arrivals per tick, 0 = bounded by MaxLen only
-  MaxArrivals,  \* arrivals per behaviour, 0 = bounded by MaxLen and Horizon only
+  MaxArrivals,  \* arrivals per behaviour, 0 = not bounded
   MaxFails,     \* failed runs per behaviour
-  ArriveWeight, \* simulation only: relative frequency of arrivals
+  ArriveWeight, \* simulation only: relative frequency of arrivals (a configuration may override both with
+                \* fields W and PT: "bursts" and "steady streams" come out of one simulation run)
   Wiring        \* "ok" | "nowait" | "skipretry" | "fresh" | "shared"
 
 VARIABLES
   cfg,       \* the configuration (chosen in Init, constant afterwards)
-  now,       \* clock
+  now,       \* clock (stays 0 when KeepHistory = FALSE)
   credit,    \* per hook: bucket content in 1/I tokens
   queue,     \* per queue: sequence of [hook, fc] (HookRun tasks, fc = failure count)
-  wpc,       \* per queue: "idle" | "wait" (inside RateLimitWait) | "run" (hook process running)
+  wpc,       \* per queue: "idle" | "wait" (inside RateLimitWait)
   waited,    \* per queue: has a tick passed during the current RateLimitWait (0/1)
-  starts,    \* per observed hook with settings: start times so far (history)
+  starts,    \* per hook of HistFor with settings: start times so far (KeepHistory = TRUE)
+  mon,       \* per hook with settings: the window monitor
+  monOK,     \* per hook: the monitor has accepted every start so far
   arrivals, thisTick, fails,   \* bounds
   act        \* label of the last action (observation only, hidden by VIEW)
 
-vars == <<cfg, now, credit, queue, wpc, waited, starts, arrivals, thisTick, fails, act>>
-View == <<cfg, now, credit, queue, wpc, waited, starts, arrivals, thisTick, fails>>
+vars == <<cfg, now, credit, queue, wpc, waited, starts, mon, monOK, arrivals, thisTick, fails, act>>
+View == <<cfg, now, credit, queue, wpc, waited, starts, mon, monOK, arrivals, thisTick, fails>>
 
 Min(a, b) == IF a < b THEN a ELSE b
+Max(a, b) == IF a > b THEN a ELSE b
 I(h) == cfg.I[h]
 B(h) == cfg.B[h]
 Limited(h) == I(h) > 0
 Cap(h) == B(h) * I(h)
+ArrW   == IF "W" \in DOMAIN cfg THEN cfg.W ELSE ArriveWeight
+PerTick == IF "PT" \in DOMAIN cfg THEN cfg.PT ELSE MaxPerTick
+MonCap(h) == IF Limited(h) THEN B(h) * I(h) + I(h) - 1 ELSE 0
 
 \* the limiter a run of hook h waits on
 Eff(h) == IF Wiring = "shared" /\ \E g \in Hooks : Limited(g)
@@ -73,6 +91,8 @@ Init ==
   /\ wpc = [q \in Queues |-> "idle"]
   /\ waited = [q \in Queues |-> 0]
   /\ starts = [h \in Hooks |-> <<>>]
+  /\ mon = [h \in Hooks |-> IF cfg.I[h] > 0 THEN cfg.B[h] * cfg.I[h] + cfg.I[h] - 1 ELSE 0]
+  /\ monOK = [h \in Hooks |-> TRUE]
   /\ arrivals = 0 /\ thisTick = 0 /\ fails = 0
   /\ act = <<"Init">>
 
@@ -80,12 +100,12 @@ Init ==
 Arrive(h, q, src) ==
   /\ q \in cfg.QS[h]
   /\ Len(queue[q]) < MaxLen
-  /\ (MaxPerTick = 0 \/ thisTick < MaxPerTick) /\ (MaxArrivals = 0 \/ arrivals < MaxArrivals)
+  /\ (PerTick = 0 \/ thisTick < PerTick) /\ (MaxArrivals = 0 \/ arrivals < MaxArrivals)
   /\ queue' = [queue EXCEPT ![q] = Append(@, [hook |-> h, fc |-> 0])]
   /\ arrivals' = IF MaxArrivals = 0 THEN 0 ELSE arrivals + 1
-  /\ thisTick' = IF MaxPerTick = 0 THEN 0 ELSE thisTick + 1
+  /\ thisTick' = IF PerTick = 0 THEN 0 ELSE thisTick + 1
   /\ act' = <<"Arrive", h, q, src>>
-  /\ UNCHANGED <<cfg, now, credit, wpc, waited, starts, fails>>
+  /\ UNCHANGED <<cfg, now, credit, wpc, waited, starts, mon, monOK, fails>>
 
 (* ---------- the queue worker inside taskHandleHookRun ---------- *)
 Pick(q) ==
@@ -95,7 +115,7 @@ Pick(q) ==
   /\ LET e == Eff(Head(queue[q]).hook)
      IN credit' = IF Wiring = "fresh" THEN [credit EXCEPT ![e] = Cap(e)] ELSE credit
   /\ act' = <<"Pick", q>>
-  /\ UNCHANGED <<cfg, now, queue, starts, arrivals, thisTick, fails>>
+  /\ UNCHANGED <<cfg, now, queue, starts, mon, monOK, arrivals, thisTick, fails>>
 
 NoWait(t) == \/ Wiring = "nowait"
              \/ (Wiring = "skipretry" /\ t.fc > 0)
@@ -103,39 +123,38 @@ NoWait(t) == \/ Wiring = "nowait"
 CanAcquire(q) == /\ wpc[q] = "wait"
                  /\ (NoWait(Head(queue[q])) \/ credit[Eff(Head(queue[q]).hook)] >= I(Eff(Head(queue[q]).hook)))
 
-Acquire(q) ==
+Acquire(q, ok) ==
   /\ CanAcquire(q)
+  /\ (~ok => fails < MaxFails)
   /\ LET t == Head(queue[q])
          h == t.hook
          e == Eff(h)
+         rest == DropRun(Tail(queue[q]), h)      \* combination happens after the wait
      IN /\ credit' = IF NoWait(t) THEN credit ELSE [credit EXCEPT ![e] = @ - I(e)]
-        /\ queue' = [queue EXCEPT ![q] = <<t>> \o DropRun(Tail(@), h)]
-        /\ starts' = IF Limited(h) /\ h \in Observed THEN [starts EXCEPT ![h] = Append(@, now)] ELSE starts
-        /\ act' = <<"Start", q, h>>
-  /\ wpc' = [wpc EXCEPT ![q] = "run"]
-  /\ UNCHANGED <<cfg, now, waited, arrivals, thisTick, fails>>
-
-Finish(q, ok) ==
-  /\ wpc[q] = "run"
-  /\ (~ok => fails < MaxFails)
-  /\ queue' = [queue EXCEPT ![q] = IF ok THEN Tail(@) ELSE <<[Head(@) EXCEPT !.fc = @ + 1]>> \o Tail(@)]
+        /\ queue' = [queue EXCEPT ![q] = IF ok THEN rest ELSE <<[t EXCEPT !.fc = @ + 1]>> \o rest]
+        /\ starts' = IF Limited(h) /\ KeepHistory /\ h \in HistFor THEN [starts EXCEPT ![h] = Append(@, now)] ELSE starts
+        /\ IF Limited(h)
+             THEN /\ monOK' = [monOK EXCEPT ![h] = @ /\ mon[h] >= I(h)]
+                  /\ mon' = [mon EXCEPT ![h] = Max(0, @ - I(h))]
+             ELSE UNCHANGED <<mon, monOK>>
+        /\ act' = <<"Start", q, h, ok>>
   /\ fails' = IF ok THEN fails ELSE fails + 1
   /\ wpc' = [wpc EXCEPT ![q] = "idle"]
-  /\ act' = <<"Finish", q, Head(queue[q]).hook, ok>>
-  /\ UNCHANGED <<cfg, now, credit, waited, starts, arrivals, thisTick>>
+  /\ UNCHANGED <<cfg, now, waited, arrivals, thisTick>>
 
 (* ---------- time ---------- *)
 Tick ==
-  /\ now < Horizon
+  /\ (KeepHistory => now < Horizon)
   /\ \A q \in Queues : ~CanAcquire(q)
-  /\ now' = now + 1
+  /\ now' = IF KeepHistory THEN now + 1 ELSE now
   /\ credit' = [h \in Hooks |-> IF Limited(h) THEN Min(Cap(h), credit[h] + 1) ELSE credit[h]]
+  /\ mon' = [h \in Hooks |-> IF Limited(h) THEN Min(MonCap(h), mon[h] + 1) ELSE mon[h]]
   /\ waited' = [q \in Queues |-> IF wpc[q] = "wait" THEN 1 ELSE waited[q]]
   /\ thisTick' = 0
   /\ act' = <<"Tick">>
-  /\ UNCHANGED <<cfg, queue, wpc, starts, arrivals, fails>>
+  /\ UNCHANGED <<cfg, queue, wpc, starts, monOK, arrivals, fails>>
 
-Worker(q) == Pick(q) \/ Acquire(q) \/ \E ok \in BOOLEAN : Finish(q, ok)
+Worker(q) == Pick(q) \/ \E ok \in BOOLEAN : Acquire(q, ok)
 Next == \/ \E h \in Hooks, q \in Queues, src \in Sources : Arrive(h, q, src)
         \/ \E q \in Queues : Worker(q)
         \/ Tick
@@ -146,22 +165,27 @@ S(x) == IF now >= 0 THEN x ELSE {}
 ArriveAny == \E h \in S(Hooks), q \in S(Queues), src \in S(Sources) : Arrive(h, q, src)
 WorkAny   == \E q \in S(Queues) : Worker(q)
 SimNext == \/ Tick \/ WorkAny \/ WorkAny
-           \/ (ArriveWeight >= 1 /\ ArriveAny) \/ (ArriveWeight >= 2 /\ ArriveAny) \/ (ArriveWeight >= 3 /\ ArriveAny)
-           \/ (ArriveWeight >= 4 /\ ArriveAny) \/ (ArriveWeight >= 5 /\ ArriveAny) \/ (ArriveWeight >= 6 /\ ArriveAny)
-           \/ (ArriveWeight >= 7 /\ ArriveAny) \/ (ArriveWeight >= 8 /\ ArriveAny)
+           \/ (ArrW >= 1 /\ ArriveAny) \/ (ArrW >= 2 /\ ArriveAny) \/ (ArrW >= 3 /\ ArriveAny)
+           \/ (ArrW >= 4 /\ ArriveAny) \/ (ArrW >= 5 /\ ArriveAny) \/ (ArrW >= 6 /\ ArriveAny)
+           \/ (ArrW >= 7 /\ ArriveAny) \/ (ArrW >= 8 /\ ArriveAny)
 SimSpec == Init /\ [][SimNext]_vars
 
 (* ---------- properties ---------- *)
 TypeOK ==
   /\ now \in 0..Horizon
-  /\ \A h \in Hooks : credit[h] \in 0..Cap(h)
-  /\ \A q \in Queues : wpc[q] \in {"idle", "wait", "run"} /\ Len(queue[q]) <= MaxLen
+  /\ \A h \in Hooks : credit[h] \in 0..Cap(h) /\ mon[h] \in 0..MonCap(h)
+  /\ \A q \in Queues : wpc[q] \in {"idle", "wait"} /\ Len(queue[q]) <= MaxLen
   /\ \A q \in Queues : wpc[q] # "idle" => queue[q] # <<>>
 
 \* C18, first clause: any window of length T holds at most B + ceil(T/I) starts of the hook
-WindowBound == \A h \in Observed : Limited(h) => WindowOK(starts[h], I(h), B(h), 0)
+WindowBound    == \A h \in HistFor : Limited(h) => WindowOK(starts[h], I(h), B(h), 0)
+WindowBoundMon == \A h \in Hooks : monOK[h]
+\* the monitor rejects exactly the start sequences with a violating window (checked with Wiring = "nowait")
+MonitorExact   == \A h \in HistFor : Limited(h) => (monOK[h] <=> WindowOK(starts[h], I(h), B(h), 0))
 \* the design is a token bucket (stricter; what the recorded traces are compared with as conformance)
-BucketBound == \A h \in Observed : Limited(h) => BucketOK(starts[h], I(h), B(h), 0)
+BucketBound    == \A h \in HistFor : Limited(h) => BucketOK(starts[h], I(h), B(h), 0)
+\* in the design the monitor never runs dry: it stays above the bucket
+MonAboveCredit == \A h \in Hooks : Limited(h) => mon[h] >= credit[h]
 \* C18, second clause: a run of a hook without settings spends no time in the limiter
 Unthrottled == \A q \in Queues : (wpc[q] = "wait" /\ ~Limited(Head(queue[q]).hook)) => waited[q] = 0
 \* a run of a hook with settings waits only while the bucket is short of a token
